@@ -7,14 +7,20 @@
     has `t₁.get q = dir` for new dirs, the new symlink for new symlink paths and `t₀.get q` elsewhere.
   * transpositions, staged moves and overlays are "file level": they only create, rewrite or remove regular
     files at places that hold nothing or a regular file (`SameNF`), so directories and symlinks stay put and
-    every new file path / temporary name stays a `Slot`.
+    every new file path / temporary name stays a `Slot`.  (The lemmas about the transposition phase are stated
+    with `SameX S` / `XSlot S`, which let a symlink or an empty directory at a path of `S` give way to the
+    regular file `copy` or `move` puts there — since the repair of finding F26 both remove such a destination
+    first.  Here `S` is empty and these are `SameNF` / `Slot`; Wharf/Proofs/CommitKinds.lean takes the new file
+    paths for `S`.)
   * the second pass of the transpositions is handled by induction over the list of groups with the tree
     generalised; the conclusion speaks about *membership* in the list only, hence is invariant under
     permutations of the visiting order.  Clash-prone outputs got pairwise distinct temporary names in the
     first pass (`seedName` is injective), none of which is a path of either build (the skip loop `nextFree`
     returns a name that is not in use: `nextFree_spec`), so no output ever overwrites a source that is still
     needed nor any other file of the builds.
-  * ghosts are deleted children first, because the joined path of a child is strictly longer.
+  * ghosts are deleted children first, because the joined path of a child is strictly longer; a ghost below a
+    file or a symlink of the new build is skipped (repair of finding F25) — it holds nothing, that entry being
+    in place.
 -/
 import Wharf.Model.Commit
 import Wharf.Proofs.Archive
@@ -635,7 +641,11 @@ theorem overlayFold_spec {new : Build} (hinj : FilesInj new) : ∀ (L : List Nat
 
 /-! ### ghost deletion -/
 
-def ghostStep (t : Tree) (x : Path × Bool) : Except Err Tree :=
+/-- the files and symlinks of the new build: a ghost strictly below one of them is skipped (`isBelowAny`) -/
+def leavesOf (new : Build) : List Path := new.files.map (·.1) ++ new.symlinks.map (·.1)
+
+def ghostStep (leaves : List Path) (t : Tree) (x : Path × Bool) : Except Err Tree :=
+  if leaves.any (fun l => isPrefix l x.1) then .ok t else
   match lstat t x.1 with
   | .error _ => .ok t
   | .ok _ =>
@@ -653,7 +663,8 @@ def joinLen (p : Path) : Nat := (String.intercalate "/" p).length
 
 theorem deleteGhosts_eq (old new : Build) (t : Tree) :
     deleteGhosts old new t =
-      ((ghostList old new).mergeSort (fun a b => joinLen a.1 ≥ joinLen b.1)).foldlM ghostStep t := rfl
+      ((ghostList old new).mergeSort (fun a b => joinLen a.1 ≥ joinLen b.1)).foldlM
+        (ghostStep (leavesOf new)) t := rfl
 
 theorem joinLen_lt {p q : Path} (hp : p ≠ []) (h : isPrefix p q = true) : joinLen p < joinLen q := by
   rw [isPrefix_iff] at h
@@ -670,94 +681,128 @@ theorem joinLen_lt {p q : Path} (hp : p ≠ []) (h : isPrefix p q = true) : join
   have : ("/" : String).length = 1 := by decide
   omega
 
-theorem ghostFold_spec : ∀ (L : List (Path × Bool)) (t : Tree), TInv t →
+/-- nothing sits below a path that does not hold a directory -/
+theorem get_none_under_nondir {t : Tree} (hI : TInv t) {p q : Path} (hnd : t.get p ≠ some .dir)
+    (h : isPrefix p q = true) : t.get q = none := by
+  cases hg : t.get q with
+  | none => rfl
+  | some x =>
+    exfalso
+    have hq : q ≠ [] := by
+      intro h0; subst h0; simp [isPrefix] at h
+    exact hnd (isDir_of_isPrefix hI (get_mem hq hg) h)
+
+/-- Ghost deletion over a list sorted by decreasing joined length.  A ghost below a leaf (a file or a symlink of
+    the new build) is skipped: it must hold nothing.  Every other ghost sits below directories. -/
+theorem ghostFold_spec (leaves : List Path) : ∀ (L : List (Path × Bool)) (t : Tree), TInv t →
     L.Pairwise (fun a b => joinLen a.1 ≥ joinLen b.1) →
-    (∀ x ∈ L, x.1 ≠ [] ∧ ".." ∉ x.1 ∧ ∀ j, j < x.1.length → IsDir t (x.1.take j)) →
+    (∀ x ∈ L, leaves.any (fun l => isPrefix l x.1) = true → t.get x.1 = none) →
+    (∀ x ∈ L, leaves.any (fun l => isPrefix l x.1) = false →
+      x.1 ≠ [] ∧ ".." ∉ x.1 ∧ ∀ j, j < x.1.length → IsDir t (x.1.take j)) →
     (∀ x ∈ L, x.2 = false → t.get x.1 ≠ some .dir) →
     (∀ x ∈ L, ∀ e ∈ t.entries, isPrefix x.1 e.1 = true → e.1 ∈ L.map (·.1)) →
-    ∃ t', L.foldlM ghostStep t = .ok t' ∧ TInv t' ∧
+    ∃ t', L.foldlM (ghostStep leaves) t = .ok t' ∧ TInv t' ∧
       ∀ q, t'.get q = if q ∈ L.map (·.1) then none else t.get q := by
   intro L
   induction L with
   | nil =>
-    intro t hI _ _ _ _
+    intro t hI _ _ _ _ _
     exact ⟨t, rfl, hI, by simp⟩
   | cons x L ih =>
-    intro t hI hpw hL hnd hun
+    intro t hI hpw hS hL hnd hun
     obtain ⟨p, b⟩ := x
     simp only [List.pairwise_cons] at hpw
-    obtain ⟨hne, hdd, hpre⟩ := hL (p, b) (by simp)
-    simp only at hne hdd hpre
-    have hplain : Plain t p := by
-      refine ⟨hne, ?_, fun h => hdd (mem_of_mem_dropLast h)⟩
-      rw [List.dropLast_eq_take]
-      apply hpre
-      have : p.length ≠ 0 := fun h0 => hne (List.eq_nil_of_length_eq_zero h0)
-      omega
     -- the first step: `t1` is `t` without `p`
-    have step : ∃ t1, ghostStep t (p, b) = .ok t1 ∧ TInv t1 ∧
-        (∀ q, t1.get q = if q = p then none else t.get q) ∧ (∀ e ∈ t1.entries, e ∈ t.entries ∧ e.1 ≠ p) := by
-      cases hg : t.get p with
-      | none =>
-        refine ⟨t, by simp only [ghostStep, lstat_none hI hplain hg], hI, ?_, ?_⟩
+    have step : ∃ t1, ghostStep leaves t (p, b) = .ok t1 ∧ TInv t1 ∧
+        (∀ q, t1.get q = if q = p then none else t.get q) ∧ (∀ e ∈ t1.entries, e ∈ t.entries ∧ e.1 ≠ p) ∧
+        (∀ y ∈ L, ∀ j, j < y.1.length → IsDir t (y.1.take j) → IsDir t1 (y.1.take j)) := by
+      cases hsk : leaves.any (fun l => isPrefix l p) with
+      | false =>
+        obtain ⟨hne, hdd, hpre⟩ := hL (p, b) (by simp) hsk
+        simp only at hne hdd hpre
+        have hplain : Plain t p := by
+          refine ⟨hne, ?_, fun h => hdd (mem_of_mem_dropLast h)⟩
+          rw [List.dropLast_eq_take]
+          apply hpre
+          have : p.length ≠ 0 := fun h0 => hne (List.eq_nil_of_length_eq_zero h0)
+          omega
+        have hnotpre : ∀ y ∈ L, ∀ j, j < y.1.length → y.1.take j ≠ p := by
+          intro y hy j hj hpj
+          have hpe : isPrefix p y.1 = true := by
+            rw [isPrefix_iff, ← hpj]
+            simp only [List.length_take]
+            refine ⟨by omega, ?_⟩
+            congr 1
+            omega
+          have h1 := hpw.1 y hy
+          have h2 := joinLen_lt hne hpe
+          omega
+        cases hg : t.get p with
+        | none =>
+          refine ⟨t, by simp only [ghostStep, hsk, lstat_none hI hplain hg]; rfl, hI, ?_, ?_,
+            fun _ _ _ _ h => h⟩
+          · intro q
+            by_cases hq : q = p
+            · rw [if_pos hq, hq, hg]
+            · rw [if_neg hq]
+          · intro e he
+            exact ⟨he, absent_of_get_none hI hg e he⟩
+        | some n =>
+          have hnu : ∀ e ∈ t.entries, isPrefix p e.1 = false := by
+            by_cases hd : n = .dir
+            · intro e he
+              cases hpe : isPrefix p e.1 with
+              | false => rfl
+              | true =>
+                exfalso
+                have hm := hun (p, b) (by simp) e he hpe
+                simp only [List.map_cons, List.mem_cons] at hm
+                rcases hm with hm | hm
+                · rw [isPrefix_iff] at hpe
+                  rw [hm] at hpe
+                  omega
+                · obtain ⟨y, hy, hy1⟩ := List.mem_map.mp hm
+                  have h1 := hpw.1 y hy
+                  have h2 := joinLen_lt hne hpe
+                  rw [← hy1] at h2
+                  omega
+            · apply no_under_of_not_dir hI
+              rw [hg]
+              simpa using hd
+          have hrm : remove t p = .ok (t.erase p) := by
+            by_cases hd : n = .dir
+            · subst hd
+              exact remove_emptydir hI hplain hg hnu
+            · exact remove_nondir hI hplain hg hd
+          refine ⟨t.erase p, by simp only [ghostStep, hsk, lstat_some hI hplain hg, hrm]; rfl,
+            hI.erase hne (dropLast_ne_of_no_under hI hnu), get_erase hne, ?_, ?_⟩
+          · intro e he
+            simp only [Tree.erase, List.mem_filter] at he
+            exact ⟨he.1, by simpa using he.2⟩
+          · intro y hy j hj hd
+            simp only [IsDir]
+            rw [get_erase hne, if_neg (hnotpre y hy j hj)]
+            exact hd
+      | true =>
+        -- a ghost below a new file or symlink: skipped; nothing is there
+        have hdn : t.get p = none := hS (p, b) (by simp) hsk
+        refine ⟨t, by simp only [ghostStep, hsk]; rfl, hI, ?_, ?_, fun _ _ _ _ h => h⟩
         · intro q
           by_cases hq : q = p
-          · rw [if_pos hq, hq, hg]
+          · rw [if_pos hq, hq, hdn]
           · rw [if_neg hq]
-        · intro e he
-          exact ⟨he, absent_of_get_none hI hg e he⟩
-      | some n =>
-        have hnu : ∀ e ∈ t.entries, isPrefix p e.1 = false := by
-          by_cases hd : n = .dir
-          · intro e he
-            cases hpe : isPrefix p e.1 with
-            | false => rfl
-            | true =>
-              exfalso
-              have hm := hun (p, b) (by simp) e he hpe
-              simp only [List.map_cons, List.mem_cons] at hm
-              rcases hm with hm | hm
-              · rw [isPrefix_iff] at hpe
-                rw [hm] at hpe
-                omega
-              · obtain ⟨y, hy, hy1⟩ := List.mem_map.mp hm
-                have h1 := hpw.1 y hy
-                have h2 := joinLen_lt hne hpe
-                rw [← hy1] at h2
-                omega
-          · apply no_under_of_not_dir hI
-            rw [hg]
-            simpa using hd
-        have hrm : remove t p = .ok (t.erase p) := by
-          by_cases hd : n = .dir
-          · subst hd
-            exact remove_emptydir hI hplain hg hnu
-          · exact remove_nondir hI hplain hg hd
-        refine ⟨t.erase p, by simp only [ghostStep, lstat_some hI hplain hg, hrm],
-          hI.erase hne (dropLast_ne_of_no_under hI hnu), get_erase hne, ?_⟩
-        intro e he
-        simp only [Tree.erase, List.mem_filter] at he
-        exact ⟨he.1, by simpa using he.2⟩
-    obtain ⟨t1, h1, hI1, hg1, he1⟩ := step
-    have hnotpre : ∀ y ∈ L, ∀ j, j < y.1.length → y.1.take j ≠ p := by
-      intro y hy j hj hpj
-      have hpe : isPrefix p y.1 = true := by
-        rw [isPrefix_iff, ← hpj]
-        simp only [List.length_take]
-        refine ⟨by omega, ?_⟩
-        congr 1
-        omega
-      have h1 := hpw.1 y hy
-      have h2 := joinLen_lt hne hpe
-      omega
+        · intro e' he'
+          exact ⟨he', absent_of_get_none hI hdn e' he'⟩
+    obtain ⟨t1, h1, hI1, hg1, he1, hd1⟩ := step
     obtain ⟨t', h2, hI2, hg2⟩ := ih t1 hI1 hpw.2 (by
-      intro y hy
-      obtain ⟨a1, a2, a3⟩ := hL y (by simp [hy])
-      refine ⟨a1, a2, ?_⟩
-      intro j hj
-      simp only [IsDir]
-      rw [hg1, if_neg (hnotpre y hy j hj)]
-      exact a3 j hj) (by
+      intro y hy hsk
+      rw [hg1]
+      by_cases hq : y.1 = p
+      · rw [if_pos hq]
+      · rw [if_neg hq]; exact hS y (by simp [hy]) hsk) (by
+      intro y hy hsk
+      obtain ⟨a1, a2, a3⟩ := hL y (by simp [hy]) hsk
+      exact ⟨a1, a2, fun j hj => hd1 y hy j hj (a3 j hj)⟩) (by
       intro y hy hb
       rw [hg1]
       by_cases hq : y.1 = p
@@ -828,8 +873,10 @@ structure PreGhost (old new : Build) (t : Tree) : Prop where
   inv : TInv t
   newOK : ∀ p ∈ pathsOf new, t.get p = (treeOfBuild new).get p
   stray : ∀ q, q ≠ [] → q ∉ pathsOf new → q ∉ pathsOf old → t.get q = none
-  oldDirs : ∀ q ∈ old.dirs, t.get q = some .dir
-  oldNonDirs : ∀ q ∈ pathsOf old, q ∉ old.dirs → t.get q ≠ some .dir
+  /-- a ghost that is not skipped (it is not below a file or a symlink of the new build) sits below directories -/
+  ghosts : ∀ q ∈ pathsOf old, q ∉ pathsOf new → (leavesOf new).any (fun l => isPrefix l q) = false →
+    ∀ j, j < q.length → IsDir t (q.take j)
+  nonDirs : ∀ q ∈ pathsOf old, q ∉ pathsOf new → q ∉ old.dirs → t.get q ≠ some .dir
 
 theorem mem_ghost_paths {old new : Build} {q : Path} :
     q ∈ (ghostList old new).map (·.1) ↔ q ∈ pathsOf old ∧ q ∉ pathsOf new := by
@@ -862,25 +909,36 @@ theorem deleteGhosts_spec {old new : Build} (ho : BWF old) (hn : BWF new) {t : T
   have hold_of : ∀ x, x ∈ ghostList old new → x.1 ∈ pathsOf old ∧ x.1 ∉ pathsOf new := by
     intro x hx
     exact mem_ghost_paths.mp (List.mem_map.mpr ⟨x, hx, rfl⟩)
-  obtain ⟨t', h1, h2, h3⟩ := ghostFold_spec _ t h.inv
+  obtain ⟨t', h1, h2, h3⟩ := ghostFold_spec (leavesOf new) _ t h.inv
     (by
       have := List.pairwise_mergeSort (le := fun (a b : Path × Bool) => decide (joinLen a.1 ≥ joinLen b.1))
         (by intro a b c hab hbc; simp only [decide_eq_true_eq] at *; omega)
         (by intro a b; simp only [Bool.or_eq_true, decide_eq_true_eq]; omega) (ghostList old new)
       exact this.imp (by intro a b hab; simpa using hab))
     (by
-      intro x hx
-      obtain ⟨hxo, _⟩ := hold_of x ((hmemS x).mp hx)
-      refine ⟨ho.ne hxo, ho.nodd hxo, ?_⟩
-      intro j hj
-      by_cases hj0 : j = 0
-      · subst hj0; simpa using isDir_nil t
-      · exact h.oldDirs _ (ho.parents _ hxo j (by omega) hj))
+      -- a skipped ghost lies below a new file or symlink, which is in place: nothing is below it
+      intro x _ hsk
+      obtain ⟨l, hl, hpre⟩ := List.any_eq_true.mp hsk
+      simp only [leavesOf, List.mem_append] at hl
+      have hlp : l ∈ pathsOf new := mem_pathsOf.mpr (hl.elim (fun h => Or.inr (Or.inr h)) (fun h => Or.inr (Or.inl h)))
+      apply get_none_under_nondir h.inv _ hpre
+      rw [h.newOK l hlp]
+      rcases hl with hl | hl
+      · obtain ⟨e, he1, he2⟩ := List.mem_map.mp hl
+        rw [← he2, get_file_treeOfBuild hn (p := e.1) (d := e.2) he1]
+        simp
+      · obtain ⟨e, he1, he2⟩ := List.mem_map.mp hl
+        rw [← he2, get_symlink_treeOfBuild hn (p := e.1) (d := e.2) he1]
+        simp)
+    (by
+      intro x hx hsk
+      obtain ⟨hxo, hxn⟩ := hold_of x ((hmemS x).mp hx)
+      exact ⟨ho.ne hxo, ho.nodd hxo, h.ghosts x.1 hxo hxn hsk⟩)
     (by
       intro x hx hb
       have hx' := (hmemS x).mp hx
-      obtain ⟨hxo, _⟩ := hold_of x hx'
-      apply h.oldNonDirs _ hxo
+      obtain ⟨hxo, hxn⟩ := hold_of x hx'
+      apply h.nonDirs _ hxo hxn
       intro hd
       rcases (mem_ghostList.mp hx').2 with ⟨hf, _⟩ | ⟨hf, _⟩ | ⟨_, hb'⟩
       · exact ho.dir_not_file hd hf
@@ -1050,7 +1108,12 @@ theorem finish_spec {old new : Build} {w : Work} (ho : BWF old) (hn : BWF new) (
         he.other q (fun h => hqn (mem_pathsOf.mpr (Or.inl h)))
           (fun h => hqn (mem_pathsOf.mpr (Or.inr (Or.inl h))))]
       exact get_none_treeOfBuild hq0 hqo
-    · intro q hq
+    · intro q0 hq0o _ _
+      intro j hj
+      by_cases hj0 : j = 0
+      · subst hj0; simpa using isDir_nil t₄
+      have hq : q0.take j ∈ old.dirs := ho.parents _ hq0o j (by omega) hj
+      generalize q0.take j = q at hq
       have hqo : q ∈ pathsOf old := mem_pathsOf.mpr (Or.inl hq)
       have h1 : t₁.get q = some .dir := by
         by_cases hqn : q ∈ new.dirs
@@ -1062,7 +1125,7 @@ theorem finish_spec {old new : Build} {w : Work} (ho : BWF old) (hn : BWF new) (
       have := hnf14 q
       rw [h1] at this
       exact nf_eq_dir.mp this
-    · intro q hqo hqd hd4
+    · intro q hqo _ hqd hd4
       have h1 : t₁.get q = some .dir := by
         have := hnf14 q
         rw [hd4] at this
@@ -1388,37 +1451,298 @@ theorem transpo_beq {a b : Transpo} : (a == b) = true ↔ a = b := by
   rw [h, h]
 
 
+/-! ### strict prefixes -/
+
+theorem isPrefix_false_nil (p : Path) : isPrefix p [] = false := by
+  simp [isPrefix]
+
+theorem isPrefix_trans {p q r : Path} (h1 : isPrefix p q = true) (h2 : isPrefix q r = true) :
+    isPrefix p r = true := by
+  rw [isPrefix_iff] at *
+  refine ⟨by omega, ?_⟩
+  have : r.take p.length = (r.take q.length).take p.length := by
+    rw [List.take_take, Nat.min_eq_left (by omega)]
+  rw [this, h2.2, h1.2]
+
+theorem isPrefix_dropLast_self {q : Path} (hq : q ≠ []) : isPrefix q.dropLast q = true := by
+  have : q.length ≠ 0 := fun h0 => hq (List.eq_nil_of_length_eq_zero h0)
+  rw [isPrefix_iff]
+  refine ⟨by simp; omega, ?_⟩
+  rw [List.dropLast_eq_take]
+  simp
+
+theorem isPrefix_of_dropLast {p q : Path} (h : isPrefix p q.dropLast = true) : isPrefix p q = true := by
+  by_cases hq : q = []
+  · subst hq; simp [isPrefix] at h
+  · exact isPrefix_trans h (isPrefix_dropLast_self hq)
+
+/-- a strict prefix is the parent or a strict prefix of the parent -/
+theorem isPrefix_cases {p q : Path} (h : isPrefix p q = true) :
+    p = q.dropLast ∨ isPrefix p q.dropLast = true := by
+  rw [isPrefix_iff] at h
+  by_cases hl : p.length = q.length - 1
+  · left
+    rw [List.dropLast_eq_take, ← hl, h.2]
+  · right
+    rw [isPrefix_iff]
+    refine ⟨by simp; omega, ?_⟩
+    rw [List.dropLast_eq_take, List.take_take, Nat.min_eq_left (by omega)]
+    exact h.2
+
+theorem isPrefix_take {q : Path} {j : Nat} (hj : j < q.length) : isPrefix (q.take j) q = true := by
+  rw [isPrefix_iff]
+  simp only [List.length_take]
+  refine ⟨by omega, ?_⟩
+  congr 1
+  omega
+
+theorem eq_take_of_isPrefix {p q : Path} (h : isPrefix p q = true) : p = q.take p.length ∧ p.length < q.length := by
+  rw [isPrefix_iff] at h
+  exact ⟨h.2.symm, h.1⟩
+
+/-! ### soft destinations
+
+  Since the repair of finding F26 `copy` (like `move`) replaces a symlink or an empty directory standing where
+  its output goes.  `S` is a set of paths at which that may happen: the file paths of the new build when paths
+  change kind (Wharf/Proofs/CommitKinds.lean), nothing under `NKC`. -/
+
+/-- `t'` differs from `t` only in regular files — except that at a path of `S` a symlink or a directory may have
+    given way to a regular file or to nothing — and nothing has appeared below a path of `S`. -/
+structure SameX (S : Path → Prop) (t t' : Tree) : Prop where
+  out : ∀ q, ¬ S q → nf (t'.get q) = nf (t.get q)
+  soft : ∀ q, S q → t'.get q = t.get q ∨ nf (t'.get q) = none
+  below : ∀ s q, S s → isPrefix s q = true → t.get q = none → t'.get q = none
+
+theorem SameX.refl (S : Path → Prop) (t : Tree) : SameX S t t :=
+  ⟨fun _ _ => rfl, fun _ _ => Or.inl rfl, fun _ _ _ _ h => h⟩
+
+theorem SameX.trans {S : Path → Prop} {a b c : Tree} (h1 : SameX S a b) (h2 : SameX S b c) : SameX S a c := by
+  refine ⟨fun q hq => (h2.out q hq).trans (h1.out q hq), ?_,
+    fun s q hs hpre h => h2.below s q hs hpre (h1.below s q hs hpre h)⟩
+  intro q hq
+  rcases h2.soft q hq with e | e
+  · rcases h1.soft q hq with e1 | e1
+    · exact Or.inl (e.trans e1)
+    · exact Or.inr (by rw [e]; exact e1)
+  · exact Or.inr e
+
+/-- a step that only turns places holding nothing or a regular file — or places of `S`, whatever they hold — into
+    places holding nothing or a regular file, none of them below a path of `S` -/
+theorem SameX.of_frame {S : Path → Prop} {t t' : Tree}
+    (h : ∀ q, t'.get q = t.get q ∨
+      (nf (t'.get q) = none ∧ (nf (t.get q) = none ∨ S q) ∧ ∀ s, S s → isPrefix s q = false)) :
+    SameX S t t' := by
+  refine ⟨?_, ?_, ?_⟩
+  · intro q hq
+    rcases h q with e | ⟨e1, e2, _⟩
+    · rw [e]
+    · rcases e2 with e2 | e2
+      · rw [e1, e2]
+      · exact absurd e2 hq
+  · intro q _
+    rcases h q with e | ⟨e1, _, _⟩
+    · exact Or.inl e
+    · exact Or.inr e1
+  · intro s q hs hpre hn
+    rcases h q with e | ⟨_, _, e3⟩
+    · rw [e, hn]
+    · have := e3 s hs
+      rw [hpre] at this
+      cases this
+
+theorem SameX.isDir {S : Path → Prop} {t t' : Tree} (h : SameX S t t') {q : Path} (hq : ¬ S q) :
+    IsDir t' q ↔ IsDir t q := by
+  simp only [IsDir]
+  rw [← nf_eq_dir, h.out q hq, nf_eq_dir]
+
+theorem sameX_false {t t' : Tree} : SameX (fun _ => False) t t' ↔ SameNF t t' :=
+  ⟨fun h q => h.out q (fun h => h), fun h => ⟨fun q _ => h q, fun _ hf => hf.elim, fun _ _ hf => hf.elim⟩⟩
+
+/-- a plain path that is not below a path of `S` -/
+structure XPlain (S : Path → Prop) (t : Tree) (p : Path) : Prop extends Plain t p where
+  free : ∀ s, S s → isPrefix s p = false
+
+/-- a place where `copy` and `move` can put a regular file: nothing is below it, and it holds nothing or a regular
+    file — or, when it is a path of `S`, a symlink or a directory (hence an empty one) -/
+structure XSlot (S : Path → Prop) (t : Tree) (p : Path) : Prop extends XPlain S t p where
+  kind : nf (t.get p) = none ∨ S p
+  empty : ∀ q, isPrefix p q = true → t.get q = none
+
+theorem XPlain.sameX {S : Path → Prop} {t t' : Tree} {p : Path} (h : SameX S t t') (hp : XPlain S t p) :
+    XPlain S t' p := by
+  refine ⟨⟨hp.ne, ?_, hp.nodd⟩, hp.free⟩
+  have hns : ¬ S p.dropLast := by
+    intro hs
+    have := hp.free _ hs
+    rw [isPrefix_dropLast_self hp.ne] at this
+    cases this
+  exact (h.isDir hns).mpr hp.parent
+
+theorem XSlot.sameX {S : Path → Prop} {t t' : Tree} {p : Path} (hI' : TInv t') (h : SameX S t t')
+    (hp : XSlot S t p) : XSlot S t' p := by
+  refine ⟨hp.toXPlain.sameX h, ?_, ?_⟩
+  · by_cases hs : S p
+    · exact Or.inr hs
+    · left
+      rw [h.out p hs]
+      exact hp.kind.resolve_right hs
+  · intro q hq
+    by_cases hs : S p
+    · exact h.below p q hs hq (hp.empty q hq)
+    · apply get_none_under_nondir hI' _ hq
+      intro hd
+      have := h.out p hs
+      rw [hd, hp.kind.resolve_right hs] at this
+      simp at this
+
+theorem xplain_of_plain {t : Tree} {p : Path} (h : Plain t p) : XPlain (fun _ => False) t p :=
+  ⟨h, fun _ hf => hf.elim⟩
+
+theorem xslot_of_slot {t : Tree} {p : Path} (hI : TInv t) (h : Slot t p) : XSlot (fun _ => False) t p :=
+  ⟨xplain_of_plain h.toPlain, Or.inl h.nofile, fun _ hq => get_none_under_nondir hI h.not_dir hq⟩
+
+/-- `os.Remove` of whatever stands at an `XSlot`, a missing one being fine: afterwards nothing is there -/
+theorem remove_xslot {S : Path → Prop} {t : Tree} (hI : TInv t) {p : Path} (hs : XSlot S t p) :
+    ∃ t0, ((remove t p = .error .enoent ∧ t0 = t) ∨ remove t p = .ok t0) ∧ TInv t0 ∧
+      t0.get p = none ∧ ∀ q, q ≠ p → t0.get q = t.get q := by
+  have hnue : ∀ e ∈ t.entries, isPrefix p e.1 = false := by
+    intro e he
+    cases hh : isPrefix p e.1 with
+    | false => rfl
+    | true =>
+      have := hI.get e he
+      rw [hs.empty _ hh] at this
+      cases this
+  cases hg : t.get p with
+  | none => exact ⟨t, Or.inl ⟨remove_none hI hs.toPlain hg, rfl⟩, hI, hg, fun _ _ => rfl⟩
+  | some n =>
+    have hr : remove t p = .ok (t.erase p) := by
+      by_cases hd : n = .dir
+      · subst hd
+        exact remove_emptydir hI hs.toPlain hg hnue
+      · exact remove_nondir hI hs.toPlain hg hd
+    refine ⟨t.erase p, Or.inr hr, hI.erase hs.ne (dropLast_ne_of_no_under hI hnue), ?_, ?_⟩
+    · rw [get_erase hs.ne, if_pos rfl]
+    · intro q hq
+      rw [get_erase hs.ne, if_neg hq]
+
 /-! ### copy, move, one group of the second pass -/
 
 theorem copyFile_spec {t : Tree} (hI : TInv t) {o n : Path} {d : List Byte} (ho : Plain t o)
     (hg : t.get o = some (.file d)) (hs : Slot t n) (b : Bool) :
     copyFile t o n b = .ok (t.set n (.file d)) := by
   obtain ⟨hm, hw⟩ := write_slot hI hs d
-  cases b with
-  | true => simp only [copyFile, if_true, hm, bind, Except.bind, readFile_plain hI ho hg, hw]
-  | false =>
-    simp only [copyFile, bind, Except.bind, readFile_plain hI ho hg, hw]
-    rfl
+  -- the destination holds nothing or a regular file: nothing is removed
+  rcases nf_eq_none.mp hs.nofile with hn | ⟨d', hn⟩
+  · have hl := lstat_none hI hs.toPlain hn
+    cases b with
+    | true => simp only [copyFile, if_true, hm, bind, Except.bind, readFile_plain hI ho hg, hl, hw]
+    | false =>
+      simp only [copyFile, bind, Except.bind, readFile_plain hI ho hg, hl, hw]
+      rfl
+  · have hl := lstat_some hI hs.toPlain hn
+    cases b with
+    | true => simp only [copyFile, if_true, hm, bind, Except.bind, readFile_plain hI ho hg, hl, hw]
+    | false =>
+      simp only [copyFile, bind, Except.bind, readFile_plain hI ho hg, hl, hw]
+      rfl
 
-theorem moveFile_spec {t : Tree} (hI : TInv t) {o n : Path} {d : List Byte} (ho : Plain t o)
-    (hg : t.get o = some (.file d)) (hs : Slot t n) (hne : o ≠ n) :
-    ∃ t', moveFile t o n = .ok t' ∧ TInv t' ∧ SameNF t t' ∧
+/-- `copy` onto an `XSlot`: a symlink or an empty directory standing there is removed first -/
+theorem copyFile_specX {S : Path → Prop} {t : Tree} (hI : TInv t) {o n : Path} {d : List Byte} (ho : Plain t o)
+    (hg : t.get o = some (.file d)) (hs : XSlot S t n) (b : Bool) :
+    ∃ t', copyFile t o n b = .ok t' ∧ TInv t' ∧ SameX S t t' ∧
+      ∀ q, t'.get q = if q = n then some (.file d) else t.get q := by
+  have hframe : ∀ t' : Tree, (∀ q, t'.get q = if q = n then some (.file d) else t.get q) → SameX S t t' := by
+    intro t' hget
+    apply SameX.of_frame
+    intro q
+    rw [hget]
+    by_cases hq : q = n
+    · right
+      rw [if_pos hq, hq]
+      exact ⟨rfl, hs.kind, hs.free⟩
+    · left
+      rw [if_neg hq]
+  by_cases hnf : nf (t.get n) = none
+  · -- nothing or a regular file: written in place
+    have hsl : Slot t n := ⟨hs.toPlain, hnf⟩
+    obtain ⟨s1, _, s3⟩ := set_file_spec hI hsl d
+    exact ⟨_, copyFile_spec hI ho hg hsl b, s1, hframe _ s3, s3⟩
+  · -- a symlink or an empty directory: removed first
+    have hm : mkdirs t n.dropLast = .ok t := mkdirs_noop hI hs.parent hs.nodd
+    have hr := readFile_plain hI ho hg
+    have hnue : ∀ e ∈ t.entries, isPrefix n e.1 = false := by
+      intro e he
+      cases hh : isPrefix n e.1 with
+      | false => rfl
+      | true =>
+        have := hI.get e he
+        rw [hs.empty _ hh] at this
+        cases this
+    have hI0 : TInv (t.erase n) := hI.erase hs.ne (dropLast_ne_of_no_under hI hnue)
+    have hs0 : Slot (t.erase n) n := by
+      refine ⟨⟨hs.ne, ?_, hs.nodd⟩, by rw [get_erase hs.ne, if_pos rfl]; rfl⟩
+      simp only [IsDir]
+      rw [get_erase hs.ne, if_neg hs.toPlain.dropLast_ne]
+      exact hs.parent
+    have hw := writeFile_slot hI0 hs0 d
+    obtain ⟨s1, _, s3⟩ := set_file_spec hI0 hs0 d
+    have hget : ∀ q, ((t.erase n).set n (.file d)).get q = if q = n then some (.file d) else t.get q := by
+      intro q
+      rw [s3, get_erase hs.ne]
+      by_cases hq : q = n <;> simp [hq]
+    refine ⟨_, ?_, s1, hframe _ hget, hget⟩
+    cases hgn : t.get n with
+    | none => rw [hgn] at hnf; exact absurd rfl hnf
+    | some nd =>
+      have hl := lstat_some hI hs.toPlain hgn
+      cases nd with
+      | file d' => rw [hgn] at hnf; exact absurd rfl hnf
+      | dir =>
+        have hrm := remove_emptydir hI hs.toPlain hgn hnue
+        cases b with
+        | true => simp only [copyFile, if_true, hm, bind, Except.bind, hr, hl, hrm, hw]
+        | false =>
+          simp only [copyFile, bind, Except.bind, hr, hl, hrm, hw]
+          rfl
+      | symlink d' =>
+        have hrm := remove_nondir hI hs.toPlain hgn (by simp)
+        cases b with
+        | true => simp only [copyFile, if_true, hm, bind, Except.bind, hr, hl, hrm, hw]
+        | false =>
+          simp only [copyFile, bind, Except.bind, hr, hl, hrm, hw]
+          rfl
+
+/-- `move` onto an `XSlot`: whatever stands there is removed first -/
+theorem moveFile_specX {S : Path → Prop} {t : Tree} (hI : TInv t) {o n : Path} {d : List Byte}
+    (ho : XPlain S t o) (hg : t.get o = some (.file d)) (hs : XSlot S t n) (hne : o ≠ n) :
+    ∃ t', moveFile t o n = .ok t' ∧ TInv t' ∧ SameX S t t' ∧
       ∀ q, t'.get q = if q = n then some (.file d) else if q = o then none else t.get q := by
-  obtain ⟨t0, hr, hI0, hnf0, hg0, hf0⟩ := remove_slot hI hs
-  have hs0 : Slot t0 n := hs.sameNF hnf0
-  have ho0 : Plain t0 o := ho.sameNF hnf0
+  obtain ⟨t0, hr, hI0, hg0, hf0⟩ := remove_xslot hI hs
+  have hs0 : Slot t0 n := by
+    refine ⟨⟨hs.ne, ?_, hs.nodd⟩, by rw [hg0]; rfl⟩
+    simp only [IsDir]
+    rw [hf0 _ hs.toPlain.dropLast_ne]
+    exact hs.parent
+  have ho0 : Plain t0 o := by
+    refine ⟨ho.ne, ?_, ho.nodd⟩
+    simp only [IsDir]
+    rw [hf0]
+    · exact ho.parent
+    · -- the source is not directly below the destination: nothing is below it
+      intro h
+      have := hs.empty o (by rw [← h]; exact isPrefix_dropLast_self ho.ne)
+      rw [hg] at this
+      cases this
   have hgo0 : t0.get o = some (.file d) := by rw [hf0 o hne]; exact hg
   obtain ⟨hm, _⟩ := write_slot hI0 hs0 d
   have hrn := rename_file hI0 ho0 hs0.toPlain hgo0 hg0
   obtain ⟨e1, e2, e3⟩ := erase_file_spec hI0 ho.ne hgo0
   have hs1 : Slot (t0.erase o) n := hs0.sameNF e2
-  obtain ⟨s1, s2, s3⟩ := set_file_spec e1 hs1 d
-  refine ⟨(t0.erase o).set n (.file d), ?_, s1, (hnf0.trans e2).trans s2, ?_⟩
-  · rcases hr with ⟨hr, rfl⟩ | hr
-    · simp only [moveFile, hr, bind, Except.bind, hm, hrn]
-      rfl
-    · simp only [moveFile, hr, bind, Except.bind, hm, hrn]
-  · intro q
+  obtain ⟨s1, _, s3⟩ := set_file_spec e1 hs1 d
+  have hget : ∀ q, ((t0.erase o).set n (.file d)).get q =
+      if q = n then some (.file d) else if q = o then none else t.get q := by
+    intro q
     rw [s3, e3]
     by_cases hq : q = n
     · simp [hq]
@@ -1427,20 +1751,39 @@ theorem moveFile_spec {t : Tree} (hI : TInv t) {o n : Path} {d : List Byte} (ho 
       · simp [hq2]
       · simp only [if_neg hq2]
         exact hf0 q hq
+  refine ⟨(t0.erase o).set n (.file d), ?_, s1, ?_, hget⟩
+  · rcases hr with ⟨hr, rfl⟩ | hr
+    · simp only [moveFile, hr, bind, Except.bind, hm, hrn]
+      rfl
+    · simp only [moveFile, hr, bind, Except.bind, hm, hrn]
+  · apply SameX.of_frame
+    intro q
+    rw [hget]
+    by_cases hq : q = n
+    · right
+      rw [if_pos hq, hq]
+      exact ⟨rfl, hs.kind, hs.free⟩
+    · rw [if_neg hq]
+      by_cases hq2 : q = o
+      · right
+        rw [if_pos hq2, hq2]
+        exact ⟨rfl, Or.inl (by rw [hg]; rfl), ho.free⟩
+      · left
+        rw [if_neg hq2]
 
 /-- the copies of a group: every non-skipped output receives the content of the source -/
-theorem copies_spec {gp : Path} {d : List Byte} (skip : Transpo → Bool) :
-    ∀ (l : List Transpo) (t : Tree), TInv t → Plain t gp → t.get gp = some (.file d) →
-    (∀ tr ∈ l, Slot t tr.outputPath) →
+theorem copies_spec {S : Path → Prop} {gp : Path} {d : List Byte} (skip : Transpo → Bool) :
+    ∀ (l : List Transpo) (t : Tree), TInv t → XPlain S t gp → t.get gp = some (.file d) →
+    (∀ tr ∈ l, XSlot S t tr.outputPath) →
     ∃ t', l.foldlM (fun t tr => if skip tr then .ok t else copyFile t gp tr.outputPath true) t = .ok t' ∧
-      TInv t' ∧ SameNF t t' ∧
+      TInv t' ∧ SameX S t t' ∧
       (∀ tr ∈ l, skip tr = false → t'.get tr.outputPath = some (.file d)) ∧
       (∀ q, (∀ tr ∈ l, skip tr = false → tr.outputPath ≠ q) → t'.get q = t.get q) := by
   intro l
   induction l with
   | nil =>
     intro t hI _ _ _
-    exact ⟨t, rfl, hI, SameNF.refl t, by simp, fun _ _ => rfl⟩
+    exact ⟨t, rfl, hI, SameX.refl S t, by simp, fun _ _ => rfl⟩
   | cons tr l ih =>
     intro t hI hp hg hs
     cases hsk : skip tr with
@@ -1456,16 +1799,16 @@ theorem copies_spec {gp : Path} {d : List Byte} (skip : Transpo → Bool) :
         exact h5 q (fun x hx => hq x (by simp [hx]))
     | false =>
       have hs1 := hs tr (by simp)
-      obtain ⟨s1, s2, s3⟩ := set_file_spec hI hs1 d
-      have hg1 : (t.set tr.outputPath (.file d)).get gp = some (.file d) := by
+      obtain ⟨t1, c1, s1, s2, s3⟩ := copyFile_specX hI hp.toPlain hg hs1 true
+      have hg1 : t1.get gp = some (.file d) := by
         rw [s3]
         by_cases h : gp = tr.outputPath
         · rw [if_pos h]
         · rw [if_neg h]; exact hg
-      obtain ⟨t', h1, h2, h3, h4, h5⟩ := ih _ s1 (hp.sameNF s2) hg1
-        (fun x hx => (hs x (by simp [hx])).sameNF s2)
+      obtain ⟨t', h1, h2, h3, h4, h5⟩ := ih _ s1 (hp.sameX s2) hg1
+        (fun x hx => (hs x (by simp [hx])).sameX s1 s2)
       refine ⟨t', ?_, h2, s2.trans h3, ?_, ?_⟩
-      · simp only [List.foldlM_cons, hsk, bind, Except.bind, copyFile_spec hI hp hg hs1 true]
+      · simp only [List.foldlM_cons, hsk, bind, Except.bind, c1]
         exact h1
       · intro x hx hskx
         simp only [List.mem_cons] at hx
@@ -1531,28 +1874,28 @@ theorem applyGroup_many (t : Tree) (ov : Bool) (gp : Path) (a b : Transpo) (r : 
     applyGroup t ov gp (a :: b :: r) = applyMany t ov gp a (a :: b :: r) := rfl
 
 /-- the last step for a group without a no-op member: copy (overlay) or move the source to `out` -/
-theorem lastStep_spec {t : Tree} (hI : TInv t) {gp out : Path} {d : List Byte} (ov : Bool)
-    (hp : Plain t gp) (hg : t.get gp = some (.file d)) (hs : Slot t out) (hne : gp ≠ out) :
-    ∃ t', (if ov then copyFile t gp out false else moveFile t gp out) = .ok t' ∧ TInv t' ∧ SameNF t t' ∧
+theorem lastStep_spec {S : Path → Prop} {t : Tree} (hI : TInv t) {gp out : Path} {d : List Byte} (ov : Bool)
+    (hp : XPlain S t gp) (hg : t.get gp = some (.file d)) (hs : XSlot S t out) (hne : gp ≠ out) :
+    ∃ t', (if ov then copyFile t gp out false else moveFile t gp out) = .ok t' ∧ TInv t' ∧ SameX S t t' ∧
       ∀ q, t'.get q = if q = out then some (.file d) else if q = gp ∧ ov = false then none else t.get q := by
   cases ov with
   | true =>
-    obtain ⟨s1, s2, s3⟩ := set_file_spec hI hs d
-    refine ⟨_, by simp only [if_true]; exact copyFile_spec hI hp hg hs false, s1, s2, ?_⟩
+    obtain ⟨t', c1, s1, s2, s3⟩ := copyFile_specX hI hp.toPlain hg hs false
+    refine ⟨t', by simp only [if_true]; exact c1, s1, s2, ?_⟩
     intro q
     rw [s3]
     simp
   | false =>
-    obtain ⟨t', h1, h2, h3, h4⟩ := moveFile_spec hI hp hg hs hne
+    obtain ⟨t', h1, h2, h3, h4⟩ := moveFile_specX hI hp hg hs hne
     refine ⟨t', by simpa using h1, h2, h3, ?_⟩
     intro q
     rw [h4]
     simp
 
-theorem applyGroup_spec {t : Tree} (hI : TInv t) {gp : Path} {g : List Transpo} {d : List Byte} (ov : Bool)
-    (hgne : g ≠ []) (htg : ∀ tr ∈ g, tr.targetPath = gp)
-    (hp : Plain t gp) (hget : t.get gp = some (.file d)) (hslots : ∀ tr ∈ g, Slot t tr.outputPath) :
-    ∃ t', applyGroup t ov gp g = .ok t' ∧ TInv t' ∧ SameNF t t' ∧
+theorem applyGroup_spec {S : Path → Prop} {t : Tree} (hI : TInv t) {gp : Path} {g : List Transpo} {d : List Byte}
+    (ov : Bool) (hgne : g ≠ []) (htg : ∀ tr ∈ g, tr.targetPath = gp)
+    (hp : XPlain S t gp) (hget : t.get gp = some (.file d)) (hslots : ∀ tr ∈ g, XSlot S t tr.outputPath) :
+    ∃ t', applyGroup t ov gp g = .ok t' ∧ TInv t' ∧ SameX S t t' ∧
       (∀ tr ∈ g, t'.get tr.outputPath = some (.file d)) ∧
       (ov = false → (∀ tr ∈ g, tr.outputPath ≠ gp) → t'.get gp = none) ∧
       (∀ q, (∀ tr ∈ g, tr.outputPath ≠ q) → (ov = false → q ≠ gp) → t'.get q = t.get q) := by
@@ -1562,7 +1905,7 @@ theorem applyGroup_spec {t : Tree} (hI : TInv t) {gp : Path} {g : List Transpo} 
     by_cases hno : (tr.targetPath == tr.outputPath) = true
     · have hout : tr.outputPath = gp := by
         rw [← htr]; exact (by simpa using hno : tr.targetPath = tr.outputPath).symm
-      refine ⟨t, by simp only [applyGroup, if_pos hno], hI, SameNF.refl t, ?_, ?_, fun _ _ _ => rfl⟩
+      refine ⟨t, by simp only [applyGroup, if_pos hno], hI, SameX.refl S t, ?_, ?_, fun _ _ _ => rfl⟩
       · intro x hx
         simp only [List.mem_singleton] at hx
         rw [hx, hout]; exact hget
@@ -1627,8 +1970,8 @@ theorem applyGroup_spec {t : Tree} (hI : TInv t) {gp : Path} {g : List Transpo} 
         rw [h5, hget]
         intro x hx _ h
         exact hnone x (by simp [hx]) h.symm
-      obtain ⟨t', l1, l2, l3, l4⟩ := lastStep_spec h2 ov (hp.sameNF h3) hg1
-        ((hslots a (by simp)).sameNF h3) (hnone a (by simp))
+      obtain ⟨t', l1, l2, l3, l4⟩ := lastStep_spec h2 ov (hp.sameX h3) hg1
+        ((hslots a (by simp)).sameX h2 h3) (hnone a (by simp))
       refine ⟨t', ?_, l2, h3.trans l3, ?_, ?_, ?_⟩
       · simp only [applyMany, hno, bind, Except.bind]
         have hz : (List.range (a :: b :: r).length).zip (a :: b :: r) =
@@ -1660,14 +2003,14 @@ theorem applyGroup_spec {t : Tree} (hI : TInv t) {gp : Path} {g : List Transpo} 
 
 /-! ### the second pass, by induction over the visited keys; the conclusion only mentions membership -/
 
-theorem secondPass_spec (G : Path → List Transpo) (c : Path → List Byte) (ov : Path → Bool)
+theorem secondPass_spec (S : Path → Prop) (G : Path → List Transpo) (c : Path → List Byte) (ov : Path → Bool)
     (hG : ∀ p, ∀ tr ∈ G p, tr.targetPath = p) :
     ∀ (L : List Path) (t : Tree), TInv t → L.Nodup → (∀ p ∈ L, G p ≠ []) →
     (∀ p ∈ L, ∀ p' ∈ L, p ≠ p' → ∀ tr ∈ G p, ∀ tr' ∈ G p', tr.outputPath ≠ tr'.outputPath) →
     (∀ p ∈ L, ∀ tr ∈ G p, ∀ p' ∈ L, tr.outputPath = p' → p' = p) →
-    (∀ p ∈ L, Plain t p ∧ t.get p = some (.file (c p))) →
-    (∀ p ∈ L, ∀ tr ∈ G p, Slot t tr.outputPath) →
-    ∃ t', L.foldlM (fun t p => applyGroup t (ov p) p (G p)) t = .ok t' ∧ TInv t' ∧ SameNF t t' ∧
+    (∀ p ∈ L, XPlain S t p ∧ t.get p = some (.file (c p))) →
+    (∀ p ∈ L, ∀ tr ∈ G p, XSlot S t tr.outputPath) →
+    ∃ t', L.foldlM (fun t p => applyGroup t (ov p) p (G p)) t = .ok t' ∧ TInv t' ∧ SameX S t t' ∧
       (∀ p ∈ L, ∀ tr ∈ G p, t'.get tr.outputPath = some (.file (c p))) ∧
       (∀ p ∈ L, ov p = false → (∀ tr ∈ G p, tr.outputPath ≠ p) → t'.get p = none) ∧
       (∀ q, (∀ p ∈ L, ∀ tr ∈ G p, tr.outputPath ≠ q) → (∀ p ∈ L, ov p = false → q ≠ p) →
@@ -1676,7 +2019,7 @@ theorem secondPass_spec (G : Path → List Transpo) (c : Path → List Byte) (ov
   induction L with
   | nil =>
     intro t hI _ _ _ _ _ _
-    exact ⟨t, rfl, hI, SameNF.refl t, by simp, by simp, fun _ _ _ => rfl⟩
+    exact ⟨t, rfl, hI, SameX.refl S t, by simp, by simp, fun _ _ _ => rfl⟩
   | cons p L ih =>
     intro t hI hnd hne hK3 hK4 hsrc hslot
     simp only [List.nodup_cons] at hnd
@@ -1690,11 +2033,11 @@ theorem secondPass_spec (G : Path → List Transpo) (c : Path → List Byte) (ov
       (by
         intro p' hp'
         obtain ⟨h1, h2⟩ := hsrc p' (by simp [hp'])
-        refine ⟨h1.sameNF a3, ?_⟩
+        refine ⟨h1.sameX a3, ?_⟩
         rw [a6 p' ?_ (fun _ => hpL p' hp'), h2]
         intro tr htr h
         exact hpL p' hp' (hK4 p (by simp) tr htr p' (by simp [hp']) h))
-      (fun q hq tr htr => (hslot q (by simp [hq]) tr htr).sameNF a3)
+      (fun q hq tr htr => (hslot q (by simp [hq]) tr htr).sameX a2 a3)
     refine ⟨t', by simp only [List.foldlM_cons, bind, Except.bind, a1, b1], b2, a3.trans b3, ?_, ?_, ?_⟩
     · intro p0 hp0 tr htr
       simp only [List.mem_cons] at hp0
@@ -1718,29 +2061,29 @@ theorem secondPass_spec (G : Path → List Transpo) (c : Path → List Byte) (ov
       rw [b6 q (fun p' hp' => hq1 p' (by simp [hp'])) (fun p' hp' => hq2 p' (by simp [hp'])),
         a6 q (hq1 p (by simp)) (hq2 p (by simp))]
 
-theorem cleanup_spec (c : Transpo → List Byte) : ∀ (C : List Transpo) (t : Tree), TInv t →
+theorem cleanup_spec (S : Path → Prop) (c : Transpo → List Byte) : ∀ (C : List Transpo) (t : Tree), TInv t →
     (C.map (·.targetPath)).Nodup → (C.map (·.outputPath)).Nodup →
     (∀ x ∈ C, ∀ y ∈ C, x.targetPath ≠ y.outputPath) →
-    (∀ x ∈ C, Plain t x.targetPath ∧ t.get x.targetPath = some (.file (c x)) ∧ Slot t x.outputPath) →
-    ∃ t', C.foldlM (fun t x => moveFile t x.targetPath x.outputPath) t = .ok t' ∧ TInv t' ∧ SameNF t t' ∧
+    (∀ x ∈ C, XPlain S t x.targetPath ∧ t.get x.targetPath = some (.file (c x)) ∧ XSlot S t x.outputPath) →
+    ∃ t', C.foldlM (fun t x => moveFile t x.targetPath x.outputPath) t = .ok t' ∧ TInv t' ∧ SameX S t t' ∧
       (∀ x ∈ C, t'.get x.outputPath = some (.file (c x)) ∧ t'.get x.targetPath = none) ∧
       (∀ q, (∀ x ∈ C, q ≠ x.targetPath ∧ q ≠ x.outputPath) → t'.get q = t.get q) := by
   intro C
   induction C with
   | nil =>
     intro t hI _ _ _ _
-    exact ⟨t, rfl, hI, SameNF.refl t, by simp, fun _ _ => rfl⟩
+    exact ⟨t, rfl, hI, SameX.refl S t, by simp, fun _ _ => rfl⟩
   | cons x C ih =>
     intro t hI hnt hno hdis hC
     simp only [List.map_cons, List.nodup_cons, List.mem_map, not_exists, not_and] at hnt hno
     obtain ⟨hp, hg, hs⟩ := hC x (by simp)
-    obtain ⟨t1, a1, a2, a3, a4⟩ := moveFile_spec hI hp hg hs (hdis x (by simp) x (by simp))
+    obtain ⟨t1, a1, a2, a3, a4⟩ := moveFile_specX hI hp hg hs (hdis x (by simp) x (by simp))
     obtain ⟨t', b1, b2, b3, b4, b5⟩ := ih t1 a2 hnt.2 hno.2
       (fun y hy z hz => hdis y (by simp [hy]) z (by simp [hz]))
       (by
         intro y hy
         obtain ⟨h1, h2, h3⟩ := hC y (by simp [hy])
-        refine ⟨h1.sameNF a3, ?_, h3.sameNF a3⟩
+        refine ⟨h1.sameX a3, ?_, h3.sameX a2 a3⟩
         rw [a4, if_neg (hdis y (by simp [hy]) x (by simp)), if_neg (hnt.1 y hy), h2])
     refine ⟨t', by simp only [List.foldlM_cons, bind, Except.bind, a1, b1], b2, a3.trans b3, ?_, ?_⟩
     · intro y hy
@@ -2121,14 +2464,22 @@ theorem files_content_unique {b : Build} (hb : BWF b) {p : Path} {d d' : List By
   have := inj_of_nodup_map (·.1) hb.files_nodup h h' rfl
   exact (Prod.mk.inj this).2
 
-theorem transp_core {old new : Build} (ho : BWF old) (hn : BWF new) (hk : NKC old new)
+/-- The transposition phase on a tree `t₁` in which every output path is a slot, every temporary name that is
+    not a path of either build is a free slot, and every source still holds its old content.  (Stated without
+    reference to how `t₁` came about, so that it serves both under `NKC` and under the weaker `BKC` of
+    Wharf/Proofs/CommitKinds.lean.) -/
+theorem transp_core {old new : Build} (ho : BWF old) (hn : BWF new) (S : Path → Prop)
     (ts : List Transpo) (srcs o₁ o₂ ovp : List Path)
     (hT1 : (ts.map (·.outputPath)).Nodup)
     (hT2 : ∀ tr ∈ ts, ∃ d, (tr.targetPath, d) ∈ old.files ∧ (tr.outputPath, d) ∈ new.files)
     (hsrc : ∀ p, p ∈ srcs ↔ ∃ tr ∈ ts, tr.targetPath = p)
     (ho₁ : o₁.Nodup) (hm₁ : ∀ p, p ∈ o₁ ↔ p ∈ srcs) (ho₂ : o₂.Nodup) (hm₂ : ∀ p, p ∈ o₂ ↔ p ∈ srcs)
     (hov : ∀ p ∈ ovp, ∀ tr ∈ ts, tr.outputPath ≠ p)
-    {t₁ : Tree} (he : Ensured new (treeOfBuild old) t₁) :
+    {t₁ : Tree} (hI₁ : TInv t₁)
+    (hslot : ∀ tr ∈ ts, XSlot S t₁ tr.outputPath)
+    (htemp : ∀ tr ∈ ts, ∀ k, seedName tr.outputPath k ∉ pathsOf old ++ pathsOf new →
+      XSlot S t₁ (seedName tr.outputPath k) ∧ t₁.get (seedName tr.outputPath k) = none)
+    (hsrcOK : ∀ p ∈ srcs, ∀ d, (p, d) ∈ old.files → XPlain S t₁ p ∧ t₁.get p = some (.file d)) :
     ∃ t₂,
       (do
         let t ← (o₂.filterMap fun p =>
@@ -2137,10 +2488,10 @@ theorem transp_core {old new : Build} (ho : BWF old) (hn : BWF new) (hk : NKC ol
         (safePass (groupsOf ts o₁) srcs (pathsOf old ++ pathsOf new)).2.foldlM
           (fun t (c : Transpo) => moveFile t c.targetPath c.outputPath) t) =
         .ok t₂ ∧
-      TInv t₂ ∧ SameNF t₁ t₂ ∧
+      TInv t₂ ∧ SameX S t₁ t₂ ∧
       (∀ tr ∈ ts, ∀ d, (tr.outputPath, d) ∈ new.files → t₂.get tr.outputPath = some (.file d)) ∧
       (∀ p ∈ ovp, p ∈ old.files.map (·.1) → t₂.get p = t₁.get p) ∧
-      (∀ q, q ∉ old.files.map (·.1) → q ∉ new.files.map (·.1) → t₂.get q = t₁.get q) := by
+      (∀ q, q ∉ srcs → (∀ tr ∈ ts, tr.outputPath ≠ q) → t₂.get q = t₁.get q) := by
   -- basic facts about the transpositions
   have hout_new : ∀ tr ∈ ts, tr.outputPath ∈ new.files.map (·.1) := by
     intro tr htr
@@ -2193,14 +2544,14 @@ theorem transp_core {old new : Build} (ho : BWF old) (hn : BWF new) (hk : NKC ol
       exact absurd (h.symm ▸ hnewpath tr htr) (hρ_fresh tr' htr' hc').2
     · rw [hρ_keep tr htr hc, hρ_keep tr' htr' hc'] at h
       exact h
-  have hρ_slot : ∀ tr ∈ ts, Slot t₁ (ρ tr.outputPath) := by
+  have hρ_slot : ∀ tr ∈ ts, XSlot S t₁ (ρ tr.outputPath) := by
     intro tr htr
     by_cases hc : Clash srcs tr
     · obtain ⟨k, hk1, hfr⟩ := hρ_temp tr htr hc
       rw [hk1]
-      exact (he.slot_of_temp hn (hout_new tr htr) hfr).1
+      exact (htemp tr htr k hfr).1
     · rw [hρ_keep tr htr hc]
-      exact he.slot_of_newfile ho hn hk (hout_new tr htr)
+      exact hslot tr htr
   -- an output that lands on a build path was not renamed
   have hρ_old : ∀ tr ∈ ts, ρ tr.outputPath ∈ pathsOf old → ρ tr.outputPath = tr.outputPath ∧ ¬ Clash srcs tr := by
     intro tr htr h
@@ -2223,12 +2574,12 @@ theorem transp_core {old new : Build} (ho : BWF old) (hn : BWF new) (hk : NKC ol
     filterMap_eq_map' (fun p hp => find?_map_key G ((hm₁ p).mpr ((hm₂ p).mp hp)))
   rw [safePass_spec, r1, r2, hg1, hg2, List.foldlM_map]
   -- second pass
-  obtain ⟨t2, s1, s2, s3, s4, s5, s6⟩ := secondPass_spec G (oldContent old) (fun p => ovp.contains p)
+  obtain ⟨t2, s1, s2, s3, s4, s5, s6⟩ := secondPass_spec S G (oldContent old) (fun p => ovp.contains p)
     (by
       intro p tr' htr'
       obtain ⟨x, _, hx, rfl⟩ := (hmemG p tr').mp htr'
       exact hx)
-    o₂ t₁ he.inv ho₂
+    o₂ t₁ hI₁ ho₂
     (by
       intro p hp
       obtain ⟨tr, htr, hp'⟩ := (hsrc p).mp ((hm₂ p).mp hp)
@@ -2263,7 +2614,7 @@ theorem transp_core {old new : Build} (ho : BWF old) (hn : BWF new) (hk : NKC ol
       obtain ⟨e, he1, he2⟩ := List.mem_map.mp (hsrc_old p ((hm₂ p).mp hp))
       have hmem : (p, e.2) ∈ old.files := by rw [← he2]; exact he1
       rw [oldContent_of_mem ho hmem]
-      exact he.oldFile ho hn hk hmem)
+      exact hsrcOK p ((hm₂ p).mp hp) _ hmem)
     (by
       intro p _ tr htr
       obtain ⟨x, hx, _, rfl⟩ := (hmemG p tr).mp htr
@@ -2290,7 +2641,7 @@ theorem transp_core {old new : Build} (ho : BWF old) (hn : BWF new) (hk : NKC ol
       have := hF
       rwa [List.Nodup, List.pairwise_map] at this
     exact h0.imp_of_mem (fun ha hb hab => ⟨(mem_flat_groups.mp ha).1, (mem_flat_groups.mp hb).1, hab⟩)
-  obtain ⟨t3, c1, c2, c3, c4, c5⟩ := cleanup_spec (fun x => oldContent old
+  obtain ⟨t3, c1, c2, c3, c4, c5⟩ := cleanup_spec S (fun x => oldContent old
       ((ts.find? (fun tr => tr.outputPath == x.outputPath)).map (·.targetPath)).get!)
     (List.filterMap (clOf srcs ρ) (o₁.flatMap fun p => ts.filter (·.targetPath == p))) t2 s2
     (by
@@ -2337,7 +2688,7 @@ theorem transp_core {old new : Build} (ho : BWF old) (hn : BWF new) (hk : NKC ol
           have h2 := List.mem_of_find?_eq_some hf
           rw [inj_of_nodup_map _ hT1 h2 htr (by simpa using h1)]
       rw [hfind]
-      refine ⟨(hρ_slot tr htr).toPlain.sameNF s3, ?_, (he.slot_of_newfile ho hn hk (hout_new tr htr)).sameNF s3⟩
+      refine ⟨(hρ_slot tr htr).toXPlain.sameX s3, ?_, (hslot tr htr).sameX s2 s3⟩
       have hsrcm : tr.targetPath ∈ o₂ := (hm₂ _).mpr ((hsrc _).mpr ⟨tr, htr, rfl⟩)
       exact s4 tr.targetPath hsrcm (ren ρ tr) ((hmemG _ _).mpr ⟨tr, htr, rfl, rfl⟩))
   refine ⟨t3, ?_, c2, s3.trans c3, ?_, ?_, ?_⟩
@@ -2411,7 +2762,7 @@ theorem transp_core {old new : Build} (ho : BWF old) (hn : BWF new) (hk : NKC ol
       rw [this]
       obtain ⟨k, hk1, hfr⟩ := hρ_temp tr htr hc
       rw [hk1]
-      exact (he.slot_of_temp hn (hout_new tr htr) hfr).2.symm
+      exact (htemp tr htr k hfr).2.symm
     · rw [c5, s6]
       · intro p' _ tr' htr' h
         obtain ⟨x, hx, _, rfl⟩ := (hmemG p' tr').mp htr'
@@ -2419,9 +2770,9 @@ theorem transp_core {old new : Build} (ho : BWF old) (hn : BWF new) (hk : NKC ol
         by_cases hc : Clash srcs x
         · exact hex ⟨x, hx, hc, h'.symm⟩
         · rw [hρ_keep x hx hc] at h'
-          exact hqn (h' ▸ hout_new x hx)
+          exact hqn x hx h'
       · intro p' hp' _ hpp
-        exact hqo (hpp ▸ hsrc_old p' ((hm₂ p').mp hp'))
+        exact hqo (hpp ▸ (hm₂ p').mp hp')
       · intro x hx
         obtain ⟨tr, htr, hc, rfl⟩ := (hCmem x).mp hx
         simp only
@@ -2429,7 +2780,7 @@ theorem transp_core {old new : Build} (ho : BWF old) (hn : BWF new) (hk : NKC ol
         · intro h
           exact hex ⟨tr, htr, hc, h⟩
         · intro h
-          exact hqn (h ▸ hout_new tr htr)
+          exact hqn tr htr h.symm
 
 
 theorem mem_srcsOf {old new : Build} {w : Work} {p : Path} :
@@ -2460,11 +2811,28 @@ theorem transpositions_spec {old new : Build} {w : Work} (ho : BWF old) (hn : BW
     obtain ⟨st, hst, d, d', e1, _⟩ := mem_tsOf.mp htr
     have : st.1 = i := hn.filesInj _ _ _ _ _ _ e1 (by rw [hie]) hpp
     exact (hw.excl₁ i (this ▸ List.mem_map.mpr ⟨st, hst, rfl⟩)).1 hi
-  obtain ⟨t₂, a1, a2, a3, a4, a5, a6⟩ := transp_core ho hn hk (tsOf old new w) (srcsOf old new w) o₁ o₂
-    (ovPaths new w) (tsOf_outputs_nodup hn hw) hT2 (fun _ => mem_srcsOf)
+  have hout_new : ∀ tr ∈ tsOf old new w, tr.outputPath ∈ new.files.map (·.1) := by
+    intro tr htr
+    obtain ⟨d, _, h⟩ := hT2 tr htr
+    exact List.mem_map.mpr ⟨_, h, rfl⟩
+  obtain ⟨t₂, a1, a2, a3, a4, a5, a6⟩ := transp_core ho hn (fun _ => False) (tsOf old new w) (srcsOf old new w)
+    o₁ o₂ (ovPaths new w) (tsOf_outputs_nodup hn hw) hT2 (fun _ => mem_srcsOf)
     (h₁.nodup_iff.mpr (srcsOf_nodup old new w)) (fun _ => h₁.mem_iff)
-    (h₂.nodup_iff.mpr (srcsOf_nodup old new w)) (fun _ => h₂.mem_iff) hov he
-  refine ⟨t₂, by rw [applyTranspositions_eq]; exact a1, a2, a3, ?_, ?_, a6⟩
+    (h₂.nodup_iff.mpr (srcsOf_nodup old new w)) (fun _ => h₂.mem_iff) hov he.inv
+    (fun tr htr => xslot_of_slot he.inv (he.slot_of_newfile ho hn hk (hout_new tr htr)))
+    (fun tr htr k hfr => ⟨xslot_of_slot he.inv (he.slot_of_temp hn (hout_new tr htr) hfr).1,
+      (he.slot_of_temp hn (hout_new tr htr) hfr).2⟩)
+    (fun p _ d hmem => ⟨xplain_of_plain (he.oldFile ho hn hk hmem).1, (he.oldFile ho hn hk hmem).2⟩)
+  refine ⟨t₂, by rw [applyTranspositions_eq]; exact a1, a2, sameX_false.mp a3, ?_, ?_, ?_⟩
+  rotate_left 2
+  · intro q hqo hqn
+    apply a6 q
+    · intro hq
+      obtain ⟨tr, htr, rfl⟩ := mem_srcsOf.mp hq
+      obtain ⟨d, h, _⟩ := hT2 tr htr
+      exact hqo (List.mem_map.mpr ⟨_, h, rfl⟩)
+    · intro tr htr h
+      exact hqn (h ▸ hout_new tr htr)
   · intro st hst p d hf
     obtain ⟨np, op, d2, f1, f2⟩ := hw.transp st hst
     rw [hf] at f1
